@@ -1,0 +1,100 @@
+//! Verification hooks (cargo feature `verif-hooks`, off by default).
+//!
+//! `atomic::{AtomicU64, AtomicUsize}` are thin wrappers over the std atomics with the same
+//! methods; each operation first calls [`yield_point`], which is a no-op unless a test harness
+//! has installed a scheduler hook on the current thread. This lets a harness decide the
+//! interleaving of individual atomic operations. With the feature off this module does not exist.
+
+use std::cell::RefCell;
+
+thread_local! {
+    static HOOK: RefCell<Option<Box<dyn Fn()>>> = const { RefCell::new(None) };
+}
+
+/// Installs (or removes) the scheduler hook of the current thread.
+pub fn set_yield_hook(hook: Option<Box<dyn Fn()>>) {
+    HOOK.with(|h| *h.borrow_mut() = hook);
+}
+
+/// Called before every hooked atomic operation.
+pub fn yield_point() {
+    HOOK.with(|h| {
+        if let Some(f) = h.borrow().as_ref() {
+            f()
+        }
+    });
+}
+
+/// Drop-in replacements for the std atomics used by the budget and limit algorithms.
+pub mod atomic {
+    use super::yield_point;
+    pub use std::sync::atomic::Ordering;
+
+    macro_rules! hooked_atomic {
+        ($name:ident, $std:ty, $int:ty) => {
+            /// Hooked atomic; see the module documentation.
+            #[derive(Debug, Default)]
+            pub struct $name($std);
+
+            impl $name {
+                /// See the std atomic.
+                pub const fn new(v: $int) -> Self {
+                    Self(<$std>::new(v))
+                }
+                /// See the std atomic.
+                pub fn load(&self, o: Ordering) -> $int {
+                    yield_point();
+                    self.0.load(o)
+                }
+                /// See the std atomic.
+                pub fn store(&self, v: $int, o: Ordering) {
+                    yield_point();
+                    self.0.store(v, o)
+                }
+                /// See the std atomic.
+                pub fn compare_exchange(
+                    &self,
+                    current: $int,
+                    new: $int,
+                    s: Ordering,
+                    f: Ordering,
+                ) -> Result<$int, $int> {
+                    yield_point();
+                    self.0.compare_exchange(current, new, s, f)
+                }
+                /// Always the strong form under the hook: no spurious failures.
+                pub fn compare_exchange_weak(
+                    &self,
+                    current: $int,
+                    new: $int,
+                    s: Ordering,
+                    f: Ordering,
+                ) -> Result<$int, $int> {
+                    yield_point();
+                    self.0.compare_exchange(current, new, s, f)
+                }
+                /// One atomic read-modify-write (one yield point).
+                pub fn fetch_add(&self, v: $int, o: Ordering) -> $int {
+                    yield_point();
+                    self.0.fetch_add(v, o)
+                }
+                /// One atomic read-modify-write (one yield point).
+                pub fn fetch_sub(&self, v: $int, o: Ordering) -> $int {
+                    yield_point();
+                    self.0.fetch_sub(v, o)
+                }
+                /// One atomic read-modify-write (one yield point): linearizable at its successful CAS.
+                pub fn fetch_update<F>(&self, s: Ordering, f: Ordering, g: F) -> Result<$int, $int>
+                where
+                    F: FnMut($int) -> Option<$int>,
+                {
+                    yield_point();
+                    self.0.fetch_update(s, f, g)
+                }
+            }
+        };
+    }
+
+    hooked_atomic!(AtomicU64, std::sync::atomic::AtomicU64, u64);
+    hooked_atomic!(AtomicUsize, std::sync::atomic::AtomicUsize, usize);
+}
